@@ -6,7 +6,7 @@ from amaranth import Cat
 
 from amaranth_soc import event
 
-from vlib import sim
+from vlib import sim, gens
 from vlib.common import Violation
 
 RULE = ("Two kinds of cases. (a) EventMap call histories: add (sources from a pool, with repeats, "
@@ -53,7 +53,7 @@ def _sim_spec(draw, tier):
 
 def strategy(tier):
     from vlib.gens import weighted
-    return weighted((1, _map_spec()), (2, _sim_spec(tier)))
+    return gens.with_pre(weighted((1, _map_spec()), (2, _sim_spec(tier))))
 
 
 def _check_map(spec, stats):
@@ -213,6 +213,8 @@ def _check_sim(spec, stats):
 
 
 def check(spec, stats):
+    if sim.set_pre(spec):
+        stats.label("pre_elaborated")
     if spec["kind"] == "map":
         _check_map(spec, stats)
     else:
